@@ -5,12 +5,14 @@ package c02
 // case brings its own key material, drawn by the generator, so that a failing key set is a replayable case.
 
 import (
+	"encoding/hex"
 	"fmt"
 	"testing"
 
 	"github.com/relab/hotstuff"
 	"github.com/relab/hotstuff/internal/proto/clientpb"
 	"github.com/relab/hotstuff/internal/proto/hotstuffpb"
+	"github.com/relab/hotstuff/security/crypto"
 	"github.com/relab/hotstuff/verifx/common"
 	"github.com/relab/hotstuff/verifx/kit"
 	"pgregory.net/rapid"
@@ -29,7 +31,7 @@ func keyProp(c keyCase) common.Result {
 		ks = append(ks, kit.KeyFromBytes(c.Scheme, s))
 	}
 	ms := kit.NewClusterWithKeys(c.Scheme, ks)
-	b := hotstuff.NewBlock(hotstuff.GetGenesis().Hash(), kit.GenesisQC(), &clientpb.Batch{Commands: []*clientpb.Command{{ClientID: 1, SequenceNumber: 1, Data: c.Seeds[0]}}}, 1, 1)
+	b := kit.NewBlock(hotstuff.GetGenesis().Hash(), kit.GenesisQC(), &clientpb.Batch{Commands: []*clientpb.Command{{ClientID: 1, SequenceNumber: 1, Data: c.Seeds[0]}}}, 1, 1)
 	kit.StoreAll(ms, b)
 	desc := fmt.Sprintf("%s n=%d key material %x", c.Scheme, n, c.Seeds)
 	q := hotstuff.QuorumSize(n)
@@ -43,6 +45,9 @@ func keyProp(c keyCase) common.Result {
 		pcs = append(pcs, pc)
 		for _, v := range ms {
 			if err := v.Auth.VerifyPartialCert(pc); err != nil {
+				if kit.BLSFalseNegative(v.Cfg, pc.Signature(), func(hotstuff.ID) []byte { return b.ToBytes() }, err) {
+					return common.Fail(kit.KnownBLS, "the vote of replica %d is rejected by replica %d (%v) although it satisfies the verification equation in other arrangements\n%s", m.ID, v.ID, err, desc)
+				}
 				return common.Fail("keys:valid-vote-rejected", "the vote of replica %d is rejected by replica %d: %v\n%s", m.ID, v.ID, err, desc)
 			}
 		}
@@ -71,12 +76,18 @@ func keyProp(c keyCase) common.Result {
 	}
 	for _, v := range ms {
 		if err := v.Auth.VerifyQuorumCert(qc); err != nil {
+			if kit.BLSFalseNegative(v.Cfg, qc.Signature(), func(hotstuff.ID) []byte { return b.ToBytes() }, err) {
+				return common.Fail(kit.KnownBLS, "an honest quorum certificate is rejected by replica %d (%v) although it satisfies the verification equation in other arrangements\n%s", v.ID, err, desc)
+			}
 			return common.Fail("keys:valid-qc-rejected", "an honest quorum certificate is rejected by replica %d: %v\n%s", v.ID, err, desc)
 		}
 		if err := v.Auth.VerifyQuorumCert(wire); err != nil {
 			return common.Fail("keys:valid-qc-rejected-after-wire", "an honest quorum certificate is rejected by replica %d after the protobuf round trip: %v\n%s", v.ID, err, desc)
 		}
 		if err := v.Auth.VerifyTimeoutCert(tc); err != nil {
+			if kit.BLSFalseNegative(v.Cfg, tc.Signature(), func(hotstuff.ID) []byte { return hotstuff.View(3).ToBytes() }, err) {
+				return common.Fail(kit.KnownBLS, "an honest timeout certificate is rejected by replica %d (%v) although it satisfies the verification equation in other arrangements\n%s", v.ID, err, desc)
+			}
 			return common.Fail("keys:valid-tc-rejected", "an honest timeout certificate is rejected by replica %d: %v\n%s", v.ID, err, desc)
 		}
 	}
@@ -110,4 +121,45 @@ func TestC02FreshKeys(t *testing.T) {
 		}
 		return c
 	}, keyProp)
+}
+
+
+// TestC02BLSKnownInputs: the concrete inputs of the known finding (found by a sweep over random keys and messages): a valid
+// signature that the pinned pairing library rejects. While the finding is open every run reports these as excluded known hits;
+// should the dependency be repaired, they simply pass.
+func TestC02BLSKnownInputs(t *testing.T) {
+	type known struct {
+		SK  string
+		Msg string
+	}
+	inputs := []known{
+		{"64c55e55023bebc8c411a85db3641b9385ba2826bfde161ad7d46279e934b0f4", "message 2269"},
+		{"20962188f8f5ae6033a5c8a3c418e276720108fa48818e5cc944223962114efd", "message 63214"},
+		{"47ab9b84642ecc02a39b022b0b3921713288af7ecacd90e326e4a3adfa69fc5d", "message 50519"},
+	}
+	common.Exhaustive(t, id, "TestC02BLSKnownInputs", func(yield func(known) bool) {
+		for _, k := range inputs {
+			if !yield(k) {
+				return
+			}
+		}
+	}, func(k known) common.Result {
+		raw, _ := hex.DecodeString(k.SK)
+		sk := &crypto.BLS12PrivateKey{}
+		sk.FromBytes(raw)
+		other := kit.KeyFromBytes("bls12", []byte{7})
+		ms := kit.NewClusterWithKeys("bls12", []hotstuff.PrivateKey{sk, other})
+		sig, err := ms[0].Base.Sign([]byte(k.Msg))
+		if err != nil {
+			return common.Fail("harness", "sign: %v", err)
+		}
+		verr := ms[1].Base.Verify(sig, []byte(k.Msg))
+		if verr == nil {
+			return common.OK(true, k.SK+k.Msg, "known-input-now-accepted")
+		}
+		if kit.BLSFalseNegative(ms[1].Cfg, sig, func(hotstuff.ID) []byte { return []byte(k.Msg) }, verr) {
+			return common.Fail(kit.KnownBLS, "key %s signs %q; the signature is valid (other arrangements of the pairing equation accept it) but Verify says: %v", k.SK, k.Msg, verr)
+		}
+		return common.Fail("keys:valid-vote-rejected", "key %s signs %q and Verify rejects it (%v); the other arrangements reject it too", k.SK, k.Msg, verr)
+	})
 }
